@@ -115,10 +115,14 @@ LiteWhy(o) ==
     ELSE IF \E i \in 1..o.n : \E k \in 1..Len(o.nbr[i]) : LET j == o.nbr[i][k] + 1 IN ~\E q \in 1..Len(o.nbr[j]) : o.nbr[j][q] = i - 1 THEN "asymmetric"
     ELSE IF 2 * o.m # FoldLeft(LAMBDA a, b : a + b, 0, o.deg) THEN "M"
     ELSE "ok"
-(* the pair {i, j}, i < j, with rank j(j-1)/2 + i; ranks that belong to no pair of 0..n-1 are ignored. Linear in n per rank, so that an   *)
+(* the pair {i, j}, i < j, with rank j(j-1)/2 + i; ranks that belong to no pair of 0..n-1 are ignored. Logarithmic in n per rank, so that an *)
 (* observation claiming thousands of vertices (a defect of the code under test) does not make the acceptor enumerate all pairs.            *)
-PairOfRank(n, r) == LET J == { j \in 1..(n - 1) : (j * (j - 1)) \div 2 <= r /\ r < (j * (j + 1)) \div 2 } IN
-                    IF J = {} THEN {} ELSE LET j == CHOOSE j \in J : TRUE IN { {r - (j * (j - 1)) \div 2, j} }
+RECURSIVE TopOfRank(_, _, _)          \* the largest j in lo..hi with j(j-1)/2 <= r (binary search)
+TopOfRank(lo, hi, r) == IF lo >= hi THEN lo
+                        ELSE LET mid == (lo + hi + 1) \div 2 IN
+                             IF (mid * (mid - 1)) \div 2 <= r THEN TopOfRank(mid, hi, r) ELSE TopOfRank(lo, mid - 1, r)
+PairOfRank(n, r) == IF n < 2 \/ r < 0 \/ r >= (n * (n - 1)) \div 2 THEN {}
+                    ELSE LET j == TopOfRank(1, n - 1, r) IN { {r - (j * (j - 1)) \div 2, j} }
 GraphOfRankSet(n, R) == [n |-> n, E |-> UNION { PairOfRank(n, r) : r \in R }]
 RankSetOf(G) == { EdgeRank(e) : e \in G.E }
 =============================================================================
